@@ -84,7 +84,8 @@ Definition run12_ba (inp : sx) : sx :=
 
 (** monitor on blob-access observations: the same digest hash is always sent
     to the same backend, whatever the instance name or operation (3); a
-    FindMissing result is the union of what the contacted backends answer (4). *)
+    FindMissing result is the union of what the contacted backends answer (4);
+    errors carry the shard key (5). *)
 Fixpoint assoc_conflict (seen : list (N * nat)) (k : N) (v : nat) : bool :=
   match seen with
   | [] => false
@@ -119,13 +120,29 @@ Definition fm_union_ok (op obs : sx) : bool :=
   | _ => true
   end.
 
+(** 5: errors carry the shard key.  A failing Get/Put/composite names exactly the
+    backend that was contacted; a failing FindMissing names at least one shard,
+    and every shard it names is one whose backend failed. *)
+Definition err_named_ok (op obs : sx) : bool :=
+  if Z.eqb (sx_Z (sx_nth op 0)) 3 then
+    let res := sx_nth obs 1 in
+    if Z.eqb (sx_Z (sx_nth res 0)) 0 then true
+    else
+      let faults := map sx_bool (sx_list (sx_nth op 2)) in
+      let names := sx_list (sx_nth res 1) in
+      negb (match names with [] => true | _ => false end)
+      && forallb (fun n => nth (sx_nat n) faults false) names
+  else if Z.eqb (sx_Z (sx_nth obs 2)) 0 then true
+       else sx_eqb (sx_nth obs 3) (L [sx_nth obs 0]).
+
 Definition mon12_ba (inp obs : sx) : list Z :=
   if is_reject obs then [] else
   let digests := sx_nth inp 2 in
   let ops := sx_list (sx_nth inp 3) in
   let pairs := combine ops (sx_list obs) in
   (if routes_conflict (concat (map (fun '(op, o) => op_routes digests op o) pairs)) then [3] else []) ++
-  (if forallb (fun '(op, o) => fm_union_ok op o) pairs then [] else [4]).
+  (if forallb (fun '(op, o) => fm_union_ok op o) pairs then [] else [4]) ++
+  (if forallb (fun '(op, o) => err_named_ok op o) pairs then [] else [5]).
 
 (** agreement: FindMissing failures name *one* of the failing shards *)
 Definition agree12_op (m o : sx) : bool :=
